@@ -545,6 +545,21 @@ def _liveness(d, run):
 
 
 
+def _stopwait(d, run):
+    """the repair of D6 at the grain of single memory operations (StopWait.tla): flag, sweep, disconnect on the processor against
+    queue, look at the flag, block on the waiter -- holds for the order the code uses, fails for the three alternatives"""
+    r = d.tlc_mc("StopWait.tla", "StopWait_fixed.cfg", run.workdir, workers=2, timeout=600)
+    run.add_mc(r, "StopWait_fixed (stopping processor: raise flag / drop buffered markers / drop receiver, against 2 waiters: queue "
+                  "marker / look at flag / block: no orphan, every waiter returns, every interleaving)")
+    if r["violated"]:
+        run.violation("specification StopWait.tla (the protocol of the D6 repair) violates %s" % r["violated"], replay_lines=[r["out"][-6000:]])
+    for v in ("noflag", "flaglate", "nosweep"):
+        w = d.tlc_mc("StopWait.tla", "StopWait_%s.cfg" % v, run.workdir, workers=2, timeout=600)
+        if not w["violated"]:
+            raise d.ToolError("StopWait_%s: the expected orphaned waiter was not found (the check would not bite)" % v)
+    run.notes["stopwait_witnesses"] = "StopWait_{noflag,flaglate,nosweep}.cfg leave a waiter blocked, as expected"
+
+
 def _drain_liveness(d, run):
     """close() under sustained load (DrainLive.tla): holds for the bounded drain (the code after fix D9); the unbounded drain is
     run as a witness that the liveness check bites -- TLC must find the lasso in which the processor never leaves the drain"""
@@ -561,6 +576,7 @@ def _drain_liveness(d, run):
 
 def c10(d, run):
     _liveness(d, run)
+    _stopwait(d, run)
     h = cache_stage(d, run, "real cache deviates from Cache.tla (wait barrier / termination)",
                     ["life", "conc"],
                     [("life", "sync", 40, 300), ("life", "async", 15, 120), ("conc_clear", "sync", 25, 150), ("conc", "sync", 15, 100), ("conc", "async", 15, 100)],
@@ -583,6 +599,7 @@ def c10(d, run):
 
 def c12(d, run):
     _liveness(d, run)
+    _stopwait(d, run)
     _drain_liveness(d, run)
     lock_stage(d, run, LOCK_LIFE)
     h = cache_stage(d, run, "real cache deviates from Cache.tla (close protocol)",
